@@ -220,7 +220,7 @@ def run(ctx):
 
     if ctx.shard == 0:
         run_nestings(ctx, res)
-    hyp_run(ctx, res, cases(), body, ctx.pick(90, 1000), label='fixtures')
+    hyp_run(ctx, res, cases(), body, ctx.pick(90, 600), label='fixtures')
     return res
 
 
